@@ -1,7 +1,28 @@
 import os
+import re
 
 import lib
 from lib import TieCheck, build_harness, sh, go_env, REPO, COQ
+
+
+def broken_lemmas(log):
+    """'File "./BridgeRecovery.v", line 57' -> 'BridgeRecovery.v: gen_connIsBroken_eq_l (line 57)'."""
+    out = []
+    for m in re.finditer(r'File "\./([A-Za-z0-9_]+\.v)", line (\d+)', log):
+        f, ln = m.group(1), int(m.group(2))
+        try:
+            src = open(os.path.join(COQ, "C15", f)).read().splitlines()[:ln]
+        except OSError:
+            continue
+        name = None
+        for line in src:
+            mm = re.match(r"\s*(?:Lemma|Theorem|Corollary|Example|Fact|Definition|Fixpoint)\s+([A-Za-z0-9_']+)", line)
+            if mm:
+                name = mm.group(1)
+        item = "%s: %s (line %d)" % (f, name, ln)
+        if item not in out:
+            out.append(item)
+    return out
 
 
 class C15(TieCheck):
@@ -11,8 +32,14 @@ class C15(TieCheck):
     gentie = "C15"
     harness = "c15"
     shards = 16
+    # the check's own theorems and the correspondence are built without the tie-A files of recovgen (RecSem /
+    # GenRecovery / BridgeRecovery): a broken tie is reported as such (gen) and the cases are still evaluated
+    coq_targets = ["Corr.vo"]
+    # tie A (docs/GenC15.md): the recovery path regenerated from the tree under test, proved equal to Recovery.v / Redact.v
+    extra_props = [("C15", "Props_GenRecovery.v")]
     extra_trust = [
         "tie A: harness/cmd/c15gen rewrites coq/C15/GenConsts.v on every run from http_consts.go (blacklistedHeader, Header* constants resolved to their strings), recovery.go (scopeToString) and fox.go (HandlerScope names); unknown shapes are refused",
+        "tie A: harness/cmd/recovgen rewrites coq/C15/GenRecovery.v on every run from recovery.go (middleware closure, recovery(), connIsBroken, DefaultHandleRecovery, statement by statement); coq/C15/BridgeRecovery.v proves Recovery.recovery_mw / connIsBroken / handle500 and the message and attributes of Recovery.record equal to it for all inputs; trusted: recovgen itself and the primitives of coq/C15/RecSem.v (docs/GenC15.md)",
         "model: coq/C15/Recovery.v (recovery(), connIsBroken, recorder, DefaultHandleRecovery), Redact.v (dump cut/split/redaction, ASCII EqualFold), Lifecycle.v (txnWith/Commit/Abort/Updates/View/write helpers over an abstract lock + route set); spec: coq/C15/Spec.v",
         "harness projections: slog message/attributes, underlying-writer digest at panic time vs at the end, Go-side identity check of the re-raised panic value, bounded-wait write probe (400 ms) for 'lock released'",
     ]
@@ -28,7 +55,31 @@ class C15(TieCheck):
         if g is None:
             return False, "c15gen does not build:\n" + lg
         rc, o = sh([g, "repo=" + os.path.abspath(REPO), "out=" + os.path.join(COQ, "C15", "GenConsts.v")], env=go_env())
-        return rc == 0, o
+        if rc != 0:
+            return False, o
+        ok2, o2 = self.gen_recovery()
+        return ok2, o + o2
+
+    def gen_recovery(self):
+        """tie A for the recovery path: recovgen rewrites coq/C15/GenRecovery.v from the tree under test, then
+        BridgeRecovery.v / Props_GenRecovery.v are rebuilt.  A refusal or a bridge lemma that no longer compiles is a
+        broken tie; the lemma is named."""
+        exe, o = build_harness("recovgen")
+        if exe is None:
+            return False, "recovgen build failed:\n" + o[-2000:]
+        with lib.Lock("coq.C15"):
+            rc, og = sh([exe, "repo=" + os.path.abspath(REPO), "out=" + os.path.join(COQ, "C15", "GenRecovery.v")], env=go_env(), timeout=300)
+        refused = "\n".join(l for l in og.splitlines() if "REFUSED" in l)
+        okb, lb = lib.coq_build("C15", targets=["Props_GenRecovery.vo"])
+        if rc == 0 and okb:
+            return True, og
+        bl = broken_lemmas(lb) if not okb else []
+        named = ("broken bridge lemma: " + ", ".join(bl)) if bl else ""
+        k = lb.find('File "./')
+        err = "" if okb else (lb[k:k + 1200] if k >= 0 else lb[-1200:])
+        head = "tie A (recovgen, docs/GenC15.md): the recovery path of %s is no longer proved equal to coq/C15/Recovery.v / Redact.v" % REPO
+        msg = "\n".join(x for x in [head, refused[:900], named, err, ("==> " + named) if named else "", ("==> " + refused[:600]) if refused else ""] if x)
+        return False, msg
 
     def run(self, tier, seed, replay=None):
         # A broken proof must not prevent the case files from being evaluated (they only need
@@ -39,7 +90,8 @@ class C15(TieCheck):
 
         def build(area, *a, **kw):
             ok, lg = orig(area, *a, **kw)
-            if not ok and area == self.area:
+            # (not for the tie-A files of recovgen: their failure is the result that gen_recovery reports)
+            if not ok and area == self.area and "Props_GenRecovery.vo" not in (kw.get("targets") or []):
                 with lib.Lock("coq." + area):
                     rc, _ = sh(["make", "Corr.vo"], cwd=os.path.join(COQ, area), timeout=1500)
                 if rc == 0:
